@@ -3,3 +3,5 @@ pub mod sel;
 pub mod linktraffic;
 pub mod netwire;
 pub mod fsdirect;
+pub mod fshistory;
+pub mod netwire_ext;
